@@ -246,6 +246,14 @@ def answer (op : String) (args : List String) : String :=
         | .error e => s!"reparse-{encodeKind e.kind} printed_len={utf8Len v.render}"
       | .error _ => "perr"
     | none => "badreq"
+  | "vfround", [a] =>
+    match decodeVersion a with
+    | some v =>
+      let printed := v.render
+      match Version.parse printed with
+      | .ok w => s!"ok {encodeText printed} same={b01 (decide (v = w))} fixed={b01 (decide (w.render = printed))}"
+      | .error e => s!"reparse-{encodeKind e.kind} printed_len={utf8Len printed} {encodeText printed}"
+    | none => "badreq"
   | "serdev", [t] =>
     match decodeText t with
     | some t => match Version.parse t with
@@ -621,6 +629,14 @@ def check (op : String) (args : List String) (impl : String) : List (String × S
     | _, _, _ => []
   | "vround", [_] =>
     if impl == "perr" || impl == "ok same=1 fixed=1" then [] else [("C12", s!"print/parse round trip: {impl}")]
+  | "vfround", [a] =>
+    -- a version built from canonical identifiers whose printed form fits MAX_LENGTH must round-trip
+    match decodeVersion a with
+    | some v =>
+      if flagOf impl "same" == some "1" && flagOf impl "fixed" == some "1" then []
+      else if impl.startsWith "reparse-MaxLength" && utf8Length v.render > 256 then []
+      else [("C12", s!"print/parse round trip of a constructed version: {impl}")]
+    | none => []
   | "serdev", [_] =>
     if impl == "perr" || flagOf impl "same" == some "1" then [] else [("C12", s!"serde round trip: {impl}")]
   | "rround", [_] =>
